@@ -85,6 +85,37 @@ pub struct DeCase {
     pub hint: Hint,
     pub strict_end: bool,
     pub access_fault: Option<CallFault>,
+    /// the format presents only the entries named in the `fields` argument of
+    /// `deserialize_struct` (serde's flatten machinery and hint-driven formats)
+    #[serde(default)]
+    pub honour_fields: bool,
+}
+
+/// How a record is handed to the visitor.
+#[derive(Clone, Copy, Debug)]
+pub struct Delivery {
+    pub mode: Mode,
+    pub hint: Hint,
+    pub strict_end: bool,
+    pub fault: Option<CallFault>,
+    pub honour_fields: bool,
+}
+
+impl Delivery {
+    pub fn clean(mode: Mode) -> Self {
+        Delivery { mode, hint: Hint::Exact, strict_end: true, fault: None, honour_fields: false }
+    }
+    fn run<'de>(&self, entries: &'de [Entry]) -> DeRun<'de> {
+        let mut run = DeRun::new(entries, self.mode, self.hint, self.strict_end, self.fault);
+        run.honour_fields = self.honour_fields;
+        run
+    }
+}
+
+impl DeCase {
+    pub fn delivery(&self) -> Delivery {
+        Delivery { mode: self.mode, hint: self.hint, strict_end: self.strict_end, fault: self.access_fault, honour_fields: self.honour_fields }
+    }
 }
 
 /// The damaged record delivered to the deserializer.
@@ -236,7 +267,17 @@ fn name_index(k: &str) -> Option<u8> {
 }
 
 /// Sequential specification of struct decoding. No serde, no code under test.
-pub fn model(entries: &[Entry], mode: Mode, strict_end: bool, fault: Option<CallFault>) -> Expect {
+pub fn model(all_entries: &[Entry], d: &Delivery) -> Expect {
+    let (mode, strict_end, fault) = (d.mode, d.strict_end, d.fault);
+    // a hint-driven format shows the visitor only the struct's own fields; the
+    // struct's fields are (hi, lo) by the property, whatever the code declares
+    let filtered: Vec<Entry>;
+    let entries: &[Entry] = if d.honour_fields && mode == Mode::Map {
+        filtered = all_entries.iter().filter(|e| name_index(&e.key).is_some()).cloned().collect();
+        &filtered
+    } else {
+        all_entries
+    };
     let mut calls = 0usize;
     let io = |calls: &mut usize| -> bool {
         let hit = matches!(fault, Some(f) if f.at == *calls);
@@ -332,8 +373,8 @@ pub struct Ref {
     pub lo: f64,
 }
 
-pub fn derive_model(entries: &[Entry], c_mode: Mode, hint: Hint, strict_end: bool, fault: Option<CallFault>) -> Result<(u64, u64), ()> {
-    let mut run = DeRun::new(entries, c_mode, hint, strict_end, fault);
+pub fn derive_model(entries: &[Entry], d: &Delivery) -> Result<(u64, u64), ()> {
+    let mut run = d.run(entries);
     match Ref::deserialize(&mut run) {
         Ok(r) if ref_valid_bits(r.hi.to_bits(), r.lo.to_bits()) => Ok((r.hi.to_bits(), r.lo.to_bits())),
         _ => Err(()),
@@ -349,11 +390,12 @@ pub struct DeOutcome {
     pub protocol_violations: u32,
     pub log: u64,
     pub sig: u64,
+    pub fields_seen: Option<&'static [&'static str]>,
 }
 
 /// Code under test: `TwoFloat::deserialize` driven by the simulated format.
-pub fn run_twofloat(entries: &[Entry], mode: Mode, hint: Hint, strict_end: bool, fault: Option<CallFault>) -> Result<DeOutcome, String> {
-    let mut run = DeRun::new(entries, mode, hint, strict_end, fault);
+pub fn run_twofloat(entries: &[Entry], d: &Delivery) -> Result<DeOutcome, String> {
+    let mut run = d.run(entries);
     let r = guarded(|| TwoFloat::deserialize(&mut run))?;
     Ok(DeOutcome {
         result: r.map(|t| (t.hi().to_bits(), t.lo().to_bits())),
@@ -362,6 +404,7 @@ pub fn run_twofloat(entries: &[Entry], mode: Mode, hint: Hint, strict_end: bool,
         protocol_violations: run.protocol_violations,
         log: run.log.finish(),
         sig: run.sig.finish(),
+        fields_seen: run.fields_seen,
     })
 }
 
@@ -421,11 +464,15 @@ pub fn execute(c: &DeCase) -> LegReport {
         Hint::Huge => "de_size_hint_huge_lie",
     });
 
-    let expect = model(&entries, c.mode, c.strict_end, c.access_fault);
+    let dl = c.delivery();
+    if c.honour_fields {
+        rep.probes.hit("de_format_honours_fields_hint");
+    }
+    let expect = model(&entries, &dl);
 
     // model cross-check: hand model vs serde derive, where both are defined
     if !matches!(expect, Expect::Unspecified(_)) {
-        let d = guarded(|| derive_model(&entries, c.mode, c.hint, c.strict_end, c.access_fault));
+        let d = guarded(|| derive_model(&entries, &dl));
         let agree = match (&expect, &d) {
             (Expect::Ok(h, l), Ok(Ok((dh, dl)))) => h == dh && l == dl,
             (Expect::Err(_), Ok(Err(()))) => true,
@@ -441,7 +488,7 @@ pub fn execute(c: &DeCase) -> LegReport {
         rep.probes.hit("de_models_agree");
     }
 
-    let out = match run_twofloat(&entries, c.mode, c.hint, c.strict_end, c.access_fault) {
+    let out = match run_twofloat(&entries, &dl) {
         Err(msg) => {
             rep.violations.push(viol("PANIC", format!("TwoFloat::deserialize panicked: {msg}")));
             rep.outcome = "panic".into();
@@ -460,6 +507,11 @@ pub fn execute(c: &DeCase) -> LegReport {
         });
     } else if c.access_fault.is_some() {
         rep.probes.hit("de_access_fault_planned_not_reached");
+    }
+    match out.fields_seen {
+        Some(fs) if fs.len() == 2 && fs.contains(&"hi") && fs.contains(&"lo") => rep.probes.hit("de_fields_hint_names_hi_lo"),
+        Some(_) => rep.probes.hit("de_fields_hint_names_something_else"),
+        None => rep.probes.hit("de_no_deserialize_struct_call"),
     }
     if out.protocol_violations > 0 {
         rep.probes.hit("de_protocol_violation_by_visitor");
@@ -567,7 +619,7 @@ pub fn execute(c: &DeCase) -> LegReport {
         let clean = DeCase { faults: vec![], access_fault: None, kinds: vec![KeyKind::Str], ..c.clone() };
         if clean.mode != Mode::Scalar {
             let es = derive_stream(&clean);
-            match run_twofloat(&es, clean.mode, Hint::Exact, true, None) {
+            match run_twofloat(&es, &Delivery { honour_fields: c.honour_fields, ..Delivery::clean(clean.mode) }) {
                 Ok(DeOutcome { result: Ok((h, l)), .. }) if h == c.hi && l == c.lo => rep.probes.hit("recovery_ok"),
                 Ok(o) => rep.violations.push(viol(
                     "RECOVERY_FAILED",
@@ -700,7 +752,8 @@ pub fn generate(r: &mut Rng, hi: u64, lo: u64, other: (u64, u64)) -> DeCase {
         _ => Hint::Exact,
     };
     let strict_end = r.chance(2, 3);
-    let mut c = DeCase { hi, lo, mode, lo_first, kinds, faults: vec![], hint, strict_end, access_fault: None };
+    let honour_fields = mode == Mode::Map && r.chance(1, 5);
+    let mut c = DeCase { hi, lo, mode, lo_first, kinds, faults: vec![], hint, strict_end, access_fault: None, honour_fields };
     if r.chance(35, 100) {
         return c; // fault-free delivery
     }
@@ -748,7 +801,7 @@ pub fn generate(r: &mut Rng, hi: u64, lo: u64, other: (u64, u64)) -> DeCase {
     if fam_access || c.faults.is_empty() {
         // place the access fault inside the operation: count the calls of a fault-free delivery
         let es = derive_stream(&c);
-        let ncalls = match run_twofloat(&es, c.mode, c.hint, c.strict_end, None) {
+        let ncalls = match run_twofloat(&es, &Delivery { fault: None, ..c.delivery() }) {
             Ok(o) => o.calls.max(1),
             Err(_) => 1,
         };
@@ -785,6 +838,7 @@ pub fn shrink(c: &DeCase) -> Vec<DeCase> {
     push(DeCase { strict_end: true, ..c.clone() });
     push(DeCase { kinds: vec![KeyKind::Str], ..c.clone() });
     push(DeCase { lo_first: false, ..c.clone() });
+    push(DeCase { honour_fields: false, ..c.clone() });
     // shrink fault parameters
     for (i, f) in c.faults.iter().enumerate() {
         let mut alts: Vec<StorageFault> = Vec::new();
